@@ -1525,7 +1525,8 @@ def pretty_float(value, ctx):
     elif math.isnan(value):
         return pretty_call_alt(ctx, constructor, args=('nan', ))
 
-    doc = annotate(Token.NUMBER_FLOAT, repr(value))
+    # float.__repr__: subclasses may override __repr__.
+    doc = annotate(Token.NUMBER_FLOAT, float.__repr__(value))
     if constructor is float:
         return doc
 
@@ -1538,7 +1539,8 @@ def pretty_int(value, ctx):
     if ctx.depth_left == 0:
         return pretty_call_alt(ctx, constructor, args=(..., ))
 
-    doc = annotate(Token.NUMBER_INT, repr(value))
+    # int.__repr__: subclasses (e.g. IntEnum) may override __repr__.
+    doc = annotate(Token.NUMBER_INT, int.__repr__(value))
     if constructor is int:
         return doc
 
@@ -1608,7 +1610,8 @@ def determine_quote_strategy(s):
 
 
 def escape_str_for_quote(use_quote, s):
-    escaped_with_quotes = repr(s)
+    # Use the built-in repr: subclasses may override __repr__.
+    escaped_with_quotes = (str if isinstance(s, str) else bytes).__repr__(s)
     repr_used_quote = escaped_with_quotes[-1]
 
     # string may have a prefix
